@@ -1,6 +1,7 @@
 package main
 
 import (
+	"sort"
 	"go/ast"
 	"go/token"
 	"strings"
@@ -464,34 +465,54 @@ func init() {
 			}
 		}
 		str("out_queue_wait_tests", strings.Join(otests, ";"), pos(owq))
-		// the return statement of every `case <-wait:` of the two selects
-		var afterWake []string
-		ast.Inspect(owq, func(n ast.Node) bool {
-			cc, ok := n.(*ast.CommClause)
-			if !ok || cc.Comm == nil || exprText(cc.Comm) != "<-wait" {
-				return true
-			}
-			ret := "(falls through)"
-			for _, st := range cc.Body {
+		// what the function returns after a wake-up: for every receive on `wait` - a case of a select or a statement of its own - the
+		// return statement that follows it (in the case body, or after the select / the statement in the enclosing block); the distinct
+		// expressions, sorted. (A select with the single case `<-wait` and the bare receive are the same thing.)
+		wakeSet := map[string]bool{}
+		var walkBlock func(list []ast.Stmt)
+		nextReturn := func(list []ast.Stmt, from int) string {
+			for _, st := range list[from:] {
 				if rs, ok := st.(*ast.ReturnStmt); ok && len(rs.Results) == 1 {
-					ret = exprText(rs.Results[0])
+					return exprText(rs.Results[0])
 				}
 			}
-			afterWake = append(afterWake, ret)
-			return true
-		})
-		// (the select without a deadline has an empty case body followed by a return statement)
-		var tailRets []string
-		ast.Inspect(owq, func(n ast.Node) bool {
-			ifs, ok := n.(*ast.IfStmt)
-			if ok && exprText(ifs.Cond) == "q.writeDeadline.IsZero()" {
-				if rs, ok := ifs.Body.List[len(ifs.Body.List)-1].(*ast.ReturnStmt); ok && len(rs.Results) == 1 {
-					tailRets = append(tailRets, exprText(rs.Results[0]))
+			return "(no return)"
+		}
+		walkBlock = func(list []ast.Stmt) {
+			for k, st := range list {
+				switch x := st.(type) {
+				case *ast.ExprStmt:
+					if exprText(x.X) == "<-wait" {
+						wakeSet[nextReturn(list, k+1)] = true
+					}
+				case *ast.SelectStmt:
+					for _, c := range x.Body.List {
+						cc := c.(*ast.CommClause)
+						if cc.Comm != nil && exprText(cc.Comm) == "<-wait" {
+							r := nextReturn(cc.Body, 0)
+							if r == "(no return)" {
+								r = nextReturn(list, k+1)
+							}
+							wakeSet[r] = true
+						}
+					}
+				case *ast.IfStmt:
+					walkBlock(x.Body.List)
+					if eb, ok := x.Else.(*ast.BlockStmt); ok {
+						walkBlock(eb.List)
+					}
+				case *ast.BlockStmt:
+					walkBlock(x.List)
 				}
 			}
-			return true
-		})
-		str("out_queue_wait_after_wake", strings.Join(append(tailRets, afterWake...), ";"), pos(owq))
+		}
+		walkBlock(owq.Body.List)
+		var wakeRets []string
+		for r := range wakeSet {
+			wakeRets = append(wakeRets, r)
+		}
+		sort.Strings(wakeRets)
+		str("out_queue_wait_after_wake", strings.Join(wakeRets, ";"), pos(owq))
 		cwd := findFuncOpt(dnsUtilDir, "OutQueue", "closedWithData")
 		cwdText := ""
 		if cwd != nil {
@@ -510,7 +531,7 @@ func init() {
 		str("out_queue_write_steps", strings.Join(topLevel(oqw.Body.List), ";"), pos(oqw))
 		asModelled := ocSteps == "q.queueMutex.Lock();q.closed = true;for;q.queueNotifiers = q.queueNotifiers[0:0];q.queueMutex.Unlock()" &&
 			strings.Join(otests, ";") == "!q.queueHasData -> nil;q.closed -> os.ErrClosed" &&
-			strings.Join(append(tailRets, afterWake...), ";") == "q.closedWithData();(falls through);q.closedWithData()" &&
+			strings.Join(wakeRets, ";") == "q.closedWithData()" &&
 			cwdText == "q.closed && q.queueHasData -> os.ErrClosed"
 		f.defBool("out_queue_close_as_modelled", asModelled, "OutQueue.Close, the tests of waitEmptyQueue and closedWithData have the texts the model was written from")
 		usw := findFunc(dnsDir, "userConnection", "Write")
